@@ -22,11 +22,13 @@ PID = "C05"
 RULE = (
     "cases: (decision matrix in the method's domain, row permutation sigma, column permutation tau applied to matrix, objectives "
     "and weights together, injective relabeling of alternatives and criteria (fresh names or a shuffle of the same names), weight "
-    "multiplier c > 0 (power of two, dyadic or arbitrary), and either a method from WSM, WPM, TOPSIS x 5 metrics, RatioMOORA, "
+    "multiplier c > 0 (power of two, dyadic or arbitrary near 1; powers of two 2^-60..2^60 and 1e-12..1e12 far from 1), and either a method from WSM, WPM, TOPSIS x 5 metrics, RatioMOORA, "
     "RefPointMOORA, FMF, MultiMOORA, ELECTRE1, ELECTRE2 or a pipeline of 1-4 transformers from Sum/Vector/MaxAbs/MinMax/Standar "
     "scalers (matrix / weights / both), Negate/InvertMinimize, Equal/Std/Entropy/CRITIC weighters followed by a method; a state "
     "machine keeps every step inside its domain). 2..12 alternatives, 2..6 criteria, never square, ties, duplicated rows, dyadic "
-    "and arbitrary doubles. Both presentations run on the real code and are compared by label: scores within 1e-9*scale, ranks only "
+    "and arbitrary doubles; for the homogeneous methods 40% of the cases hold a pair of alternatives with close but distinct scores "
+    "(one row a copy of another improved by a relative 1e-6..1e-3 on every / one criterion) and 20% have the weights of the first "
+    "presentation themselves scaled by 2^+-20..50. Both presentations run on the real code and are compared by label: scores within 1e-9*scale, ranks only "
     "through the pairwise relation on pairs whose first-presentation scores differ by more than 2e-9*scale, ELECTRE1 kernel exactly "
     "when no concordance / discordance value is within the margin of a threshold. Non-trivial: the second presentation differs "
     "from the first (non-identity permutation or renaming) or c != 1."
@@ -36,6 +38,11 @@ ASSUMPTIONS = [
     "(sum|w|*max|a|, the TOPSIS closeness condition number, log magnitudes) times the conditioning of the transformers in front",
     "rank numbers are never compared across presentations: only the relation rank a < / = / > rank b on pairs whose scores in the "
     "first presentation (exact rationals of the reported floats) are more than 2e-9*scale apart; closer pairs are counted and skipped",
+    "weights x c: rounding is relative to the scale of each presentation; the scale of the scaled presentation is computed from the "
+    "data that reaches the method there (|c| x the first one for the methods of degree one in the weights, the log magnitudes of "
+    "a*w*c for the multiplicative form, unchanged for TOPSIS) and the margin of a pair is 2e-9 x the larger of the two in the "
+    "units of the first presentation - there is no absolute floor, so a collapse of distinct scores into one rank (or the split "
+    "of a tie) at any magnitude of the weights is a violation",
     "ELECTRE: a case is decided only if no concordance / discordance value is within the margin of a threshold and no pair of "
     "weight sums of the weight-outranking test is within the margin (dyadic kernel-only cases are exact and always decided); "
     "ELECTRE2 as coded tests `weight == 1.0` (known finding K1 of C08): a case where rounding puts a weight on different sides of "
